@@ -9,8 +9,8 @@ from props import c03
 
 PROPERTY = 'C01'
 LEVEL = 'exploration'
-RULE = ('G1 programs (every statement/expression form and literal spelling, four layout regimes) and the repository '
-        'snippets that calmjs accepts, x indentation strings drawn from text(" \\t", max 8) incl. empty. Oracle: '
+RULE = ('G1 programs (every statement/expression form and literal spelling, four layout regimes), the repository '
+        'snippets that calmjs accepts and an enumerated family of nested array literals with holes in every position, x indentation strings drawn from text(" \\t", max 8) incl. empty. Oracle: '
         'o = pretty_print(parse(src), ind); (a) calmjs re-parses o to the same canonical tree; (b) the independent '
         'reference parser R1 accepts o and reads the same tree; (c) pretty_print(parse(o), ind) == o byte for byte. '
         'Sources calmjs rejects are outside the quantifier, and sources on which calmjs and the reference parser already disagree belong to C03 (both counted, not judged). non-trivial = tree with >= 4 node kinds and '
@@ -98,4 +98,6 @@ def run_shard(shard):
         for src in c03.load_corpus():
             for indent in ('  ', '\t', ''):
                 one(src, indent, 'corpus')
+        for src in gen_program.array_shapes():
+            one(src, '  ', 'array_shapes')
     return acc.result()
